@@ -207,6 +207,6 @@ def coreProperties (a : Archive) : M (Dict Str (Option Str)) :=
   match filesOfType files [lit "core-properties"] with
   | [] => pure []
   | r :: _ => (a.readXml r.path) >>= fun root =>
-      pure (root.kids.foldl (fun d k => Dict.set d k.localname k.text?) [])
+      pure ((root.kids.filter Xml.isElem).foldl (fun d k => Dict.set d k.localname k.text?) [])
 
 end D2P
